@@ -47,6 +47,12 @@ Theorem C12_surrogate_rejected : forall t s, lone_surrogate s -> const_check t (
 Proof. exact surrogate_rejected. Qed.
 Print Assumptions C12_surrogate_rejected.
 
+(* through definition text: exactly the constructor's verdict, for types that can be constructed and aggregated *)
+Theorem C12_text_channel : forall t v v', const_text t v = COk v' <->
+  ctype_ok t = true /\ t <> TByte /\ t <> TUtf8 /\ const_check t v = COk v'.
+Proof. exact text_channel. Qed.
+Print Assumptions C12_text_channel.
+
 (* non-vacuity: both sides of a boundary, a character constant, a float limit *)
 Example C12_nonvacuous :
   const_check (TSInt 64 false) (VRat (inject_Z (- 2 ^ 63))) = COk (VRat (inject_Z (- 2 ^ 63)))
